@@ -1,11 +1,12 @@
 // verifharness drives the implementation under /repo for the correspondence checks and the direct
 // property oracles.  Every random choice derives from one SplitMix64 state (--seed).
 // Output protocol (stdout, one record per line):
-//   CASE <coq term>      a case for cases.v (input and projected observable)
-//   STAT <key> <int>     histogram entry for the evidence file
-//   SAMPLE <text>        a sample case, human readable
-//   FAIL <json>          the direct oracle found a violation (json = replay data)
-//   KNOWN <id> <json>    a failing case that a known-finding classifier explains
+//
+//	CASE <coq term>      a case for cases.v (input and projected observable)
+//	STAT <key> <int>     histogram entry for the evidence file
+//	SAMPLE <text>        a sample case, human readable
+//	FAIL <json>          the direct oracle found a violation (json = replay data)
+//	KNOWN <id> <json>    a failing case that a known-finding classifier explains
 package main
 
 import (
